@@ -22,6 +22,8 @@ def gen(run):
     maxl = 3 if run.tier == "quick" else 4
     ex = [pl.case(P, c, "ds") for c in pl.files(a19, maxl)]
     ex += [pl.case(P, c, "ds") for c in pl.files(pl.adjacent(P), 3)]      # rejected candidate directly followed by the next one
+    ex += [pl.case(P, c, "ds") for c in pl.files(pl.percent(P), 3)]       # printf directives in lines that are kept
+    ex += [pl.case(P, c, "ed") for c in pl.files(pl.percent(P), 2)]
     ex += [pl.case(P, c, "ed") for c in pl.files(a18, 2 if run.tier == "quick" else 3)]
     # a path that does not mention the library name: nothing but the alien line counts as a mention, so most files are rewritten
     ex += [pl.case(pl.P_PLAIN, c, "ds") for c in pl.files(pl.alphabet19(pl.P_PLAIN), maxl)]
